@@ -2,11 +2,27 @@
    every recorded segment at crash points (optionally followed by zero bytes) and ran the real reader functions. *)
 From Coq Require Import List ZArith Bool.
 Require Import MTX.Lib.IntWrap MTX.Model.C24_MulDiv MTX.Model.C28_SegRead.
-Require Export MTX.Model.C27_Fmp4Rec.
+Require Export MTX.Model.C27_Fmp4Rec MTX.Model.C27_Segmenter.
 Import ListNotations.
 Local Open Scope Z_scope.
 
 Inductive zobs := ZOk (v : Z) | ZErr | ZPanic.
+
+(* ---- segmenter cases: a generated sample stream and what the real fMP4 format made of it ---- *)
+(* tracks (clock rate, is video), part duration, segment duration (ns), max part size,
+   samples (track, dts, ntp in ms, 2 * payload size + (1 if non-sync)) in arrival order *)
+Inductive stream := MkStream (tracks : list (Z * bool)) (pd sd mp : Z) (evs : list (Z * Z * Z * Z)).
+Definition osmp := (Z * Z)%type.                         (* duration, 2 * size + (1 if non-sync) *)
+Definition otrk := (Z * Z * list osmp)%type.             (* track, base time, samples *)
+Definition oprt := (Z * list otrk)%type.                 (* sequence number, tracks sorted by id *)
+(* a segment file read back: mtxi number / dts / ntp, mvhd duration (ms), parts *)
+Inductive oseg := OSeg (num sdts sntp hdr : Z) (parts : list oprt).
+(* outcome per formatFMP4Track.write call (0 nil, 1 nil + "discarding" warning, 2 error), the files in creation order,
+   the durations given to OnSegmentComplete *)
+Inductive obs := MkObs (outs : list Z) (segs : list oseg) (reported : list Z).
+(* a segment file and the system calls observed on it by strace: (0,_,_) openat with O_CREAT|O_TRUNC,
+   (1, offset, length) write, (2, offset, length) read, (3,_,_) close; layout read back from the finished file *)
+Inductive ofile := OFile (num ftyp_len moov_len mvhd_len : Z) (parts : list (Z * Z)) (ops : list (Z * Z * Z)).
 
 Inductive case :=
   (* a segment with an init of init_len bytes and parts of (moof length, mdat length) bytes; durs = for every part the
@@ -21,7 +37,13 @@ Inductive case :=
   (* first video sample of a recorded segment *)
 | CSync (has_video first_video_sync : bool)
   (* two consecutive segments of a recording: stream ids equal, segment numbers, segmentFMP4CanBeConcatenated *)
-| CConcat (sid_eq : bool) (n1 n2 : Z) (real : bool).
+| CConcat (sid_eq : bool) (n1 n2 : Z) (real : bool)
+  (* samples handed to the real formatFMP4Track.write, files read back *)
+| CSeg (s : stream) (o : obs)
+  (* units written to a stream recorded by the real Recorder (gate included); outcomes are not observable *)
+| CRec (s : stream) (o : obs)
+  (* the same as CSeg in a child process under strace *)
+| CStrace (s : stream) (files : list ofile).
 
 Definition zobs_eqb (a b : zobs) : bool :=
   match a, b with
@@ -49,6 +71,256 @@ Definition predict (init_len : Z) (parts : list (Z * Z)) (durs : list Z) (j : Z)
        | None => ZPanic
        end.
 
+
+(* ---- segmenter: the model's prediction ---- *)
+Definition cfg_of (s : stream) : cfg :=
+  match s with
+  | MkStream tr pd sd mp _ =>
+      {| c_tracks := map (fun e => {| tc_rate := fst e; tc_video := snd e |}) tr;
+         c_part_dur := pd; c_seg_dur := sd; c_max_part := mp |}
+  end.
+Definition evs_of (s : stream) : list event :=
+  match s with
+  | MkStream _ _ _ _ evs =>
+      map (fun e => match e with
+                    | (t, d, n, z2) => (Z.to_nat t, {| s_dts := d; s_ntp := n * 1000000; s_nonsync := Z.odd z2;
+                                                       s_size := z2 / 2 |})
+                    end) evs
+  end.
+Fixpoint base_of (t : nat) (l : list (nat * Z)) : Z :=
+  match l with
+  | [] => -1
+  | (u, b) :: r => if Nat.eqb u t then b else base_of t r
+  end.
+Definition osmp_of (w : wsmp) : osmp :=
+  (w.(w_dur), 2 * w.(w_smp).(s_size) + (if w.(w_smp).(s_nonsync) then 1 else 0)).
+Definition trk_view (n : nat) (p : opart) : list otrk :=
+  flat_map (fun t => if has_trk t p.(o_base)
+                     then [(Z.of_nat t, base_of t p.(o_base),
+                            map osmp_of (filter (fun w => Nat.eqb w.(w_trk) t) p.(o_smps)))]
+                     else []) (seq 0 n).
+Definition oseg_of (n : nat) (f : segfile) : oseg :=
+  OSeg f.(f_num) f.(f_sdts) f.(f_sntp) (match f.(f_closed) with Some d => duration_field d | None => -1 end)
+       (map (fun p => (p.(o_seq), trk_view n p)) f.(f_parts)).
+Definition closes (l : list sop) : list Z := flat_map (fun o => match o with SClose _ d => [d] | _ => [] end) l.
+Definition model_obs (gated : bool) (s : stream) : obs :=
+  let c := cfg_of s in
+  let x := if gated then run c (evs_of s) else run_raw c (evs_of s) in
+  MkObs x.(x_outs) (map (oseg_of (length c.(c_tracks))) (files_of x.(x_log))) (closes x.(x_log)).
+
+Fixpoint list_eqb {A B} (f : A -> B -> bool) (a : list A) (b : list B) : bool :=
+  match a, b with
+  | [], [] => true
+  | x :: a', y :: b' => f x y && list_eqb f a' b'
+  | _, _ => false
+  end.
+Definition osmp_eqb (a b : osmp) : bool :=
+  (fst a =? fst b) && (snd a =? snd b).
+Definition otrk_eqb (a b : otrk) : bool :=
+  match a, b with (t, bs, l), (t', bs', l') => (t =? t') && (bs =? bs') && list_eqb osmp_eqb l l' end.
+Definition oprt_eqb (a b : oprt) : bool := (fst a =? fst b) && list_eqb otrk_eqb (snd a) (snd b).
+Definition oseg_eqb (a b : oseg) : bool :=
+  match a, b with
+  | OSeg n d t h ps, OSeg n' d' t' h' ps' =>
+      (n =? n') && (d =? d') && (t =? t') && (h =? h') && list_eqb oprt_eqb ps ps'
+  end.
+Definition obs_eqb (with_outs : bool) (a b : obs) : bool :=
+  match a, b with
+  | MkObs o g r, MkObs o' g' r' =>
+      (negb with_outs || list_eqb Z.eqb o o') && list_eqb oseg_eqb g g' && list_eqb Z.eqb r r'
+  end.
+
+(* ---- segmenter: the property on the files, from the input and the observed outcomes only ---- *)
+(* a sample that must be in the files: (track, (duration, 2 * size + non-sync), dts in ns, end in ns) *)
+Definition xsmp := (Z * osmp * Z * Z)%type.
+Fixpoint lookup {A} (t : Z) (l : list (Z * A)) : option A :=
+  match l with
+  | [] => None
+  | (u, a) :: r => if u =? t then Some a else lookup t r
+  end.
+Definition rate_of (tracks : list (Z * bool)) (t : Z) : Z := fst (nth (Z.to_nat t) tracks (1, false)).
+(* the sample of a track is written when the next sample of the track arrives, with the difference of the (non
+   decreasing) timestamps as duration, unless that call reported a discard (1) or failed (2) *)
+Fixpoint expected_written (tracks : list (Z * bool)) (evs : list (Z * Z * Z * Z)) (outs : list Z)
+         (pend : list (Z * (Z * Z))) : list xsmp :=
+  match evs, outs with
+  | (t, d, _, z2) :: er, o :: or =>
+      match lookup t pend with
+      | None => expected_written tracks er or ((t, (d, z2)) :: pend)
+      | Some (pd, pz2) =>
+          let d' := Z.max d pd in
+          let dur := wrapu32 (d' - pd) in
+          let r := rate_of tracks t in
+          let item := (t, (dur, pz2), ts2dur pd r, ts2dur pd r + ts2dur dur r) in
+          let rest := expected_written tracks er or ((t, (d', z2)) :: pend) in
+          if o =? 0 then item :: rest else rest
+      end
+  | _, _ => []
+  end.
+Definition x_trk_of (x : xsmp) : Z := match x with (t, _, _, _) => t end.
+Definition x_osmp (x : xsmp) : osmp := match x with (_, o, _, _) => o end.
+Definition x_dts (x : xsmp) : Z := match x with (_, _, d, _) => d end.
+Definition x_end (x : xsmp) : Z := match x with (_, _, _, e) => e end.
+Definition x_size (x : xsmp) : Z := snd (x_osmp x) / 2.
+Definition xspan (l : list xsmp) : Z :=
+  match l with
+  | [] => 0
+  | x :: _ => fold_left Z.max (map x_end l) 0 - x_dts x
+  end.
+Definition otrk_count (p : oprt) : nat := fold_right (fun tr n => (length (snd tr) + n)%nat) O (snd p).
+(* one part against the next samples that must be in the files: every track list is the track's samples of the
+   chunk in order, base time = offset of the track's first sample in the segment, the part's bounds *)
+Definition part_fail (tracks : list (Z * bool)) (pd mp sdts : Z) (is_last : bool) (p : oprt) (chunk : list xsmp) : bool :=
+  negb (Nat.eqb (length chunk) (otrk_count p))
+  || existsb (fun tr => match tr with (t, bs, l) =>
+                negb (list_eqb osmp_eqb l (map x_osmp (filter (fun x => x_trk_of x =? t) chunk)))
+                || match filter (fun x => x_trk_of x =? t) chunk with
+                   | x :: _ => negb (bs =? muldiv_w (x_dts x - sdts) (rate_of tracks t) nanos) || (x_dts x - sdts <? 0)
+                   | [] => true
+                   end end) (snd p)
+  || (fold_right Z.add 0 (map x_size chunk) >? mp)
+  || ((2 <=? Z.of_nat (length chunk)) && (pd <=? xspan (removelast chunk)))
+  || (negb is_last && (xspan chunk <? pd)).
+Fixpoint parts_fail (tracks : list (Z * bool)) (pd mp sdts : Z) (seq : Z) (ps : list oprt) (exp : list xsmp)
+  : bool * list xsmp :=
+  match ps with
+  | [] => (false, exp)
+  | p :: r =>
+      let n := otrk_count p in
+      let bad := negb (fst p =? seq)
+                 || part_fail tracks pd mp sdts (match r with [] => true | _ => false end) p (firstn n exp) in
+      let '(bad', rest) := parts_fail tracks pd mp sdts (seq + 1) r (skipn n exp) in
+      (bad || bad', rest)
+  end.
+Fixpoint segs_fail (tracks : list (Z * bool)) (pd mp : Z) (num : Z) (gs : list oseg) (exp : list xsmp) : bool :=
+  match gs with
+  | [] => match exp with [] => false | _ => true end              (* an accepted sample is in no file *)
+  | OSeg n sdts _ _ ps :: r =>
+      let '(bad, rest) := parts_fail tracks pd mp sdts 0 ps exp in
+      negb (n =? num) || match ps with [] => true | _ => false end || bad || segs_fail tracks pd mp (num + 1) r rest
+  end.
+(* with one video track whose first sample is a random access sample (the gate), every file's first sample of that
+   track is a random access sample *)
+Fixpoint first_of_track (t : Z) (ps : list oprt) : option osmp :=
+  match ps with
+  | [] => None
+  | p :: r =>
+      match lookup t (map (fun tr => match tr with (u, _, l) => (u, l) end) (snd p)) with
+      | Some (x :: _) => Some x
+      | _ => first_of_track t r
+      end
+  end.
+Fixpoint video_tracks (tracks : list (Z * bool)) (i : Z) : list Z :=
+  match tracks with
+  | [] => []
+  | (_, v) :: r => if v then i :: video_tracks r (i + 1) else video_tracks r (i + 1)
+  end.
+Fixpoint first_ev_sync (t : Z) (evs : list (Z * Z * Z * Z)) : bool :=
+  match evs with
+  | [] => true
+  | (u, _, _, z2) :: r => if u =? t then negb (Z.odd z2) else first_ev_sync t r
+  end.
+Definition sync_fail (gated : bool) (s : stream) (gs : list oseg) : bool :=
+  match s with
+  | MkStream tracks _ _ _ evs =>
+      match video_tracks tracks 0 with
+      | [v] => (gated || first_ev_sync v evs)
+               && existsb (fun g => match g with
+                                    | OSeg _ _ _ _ ps => match first_of_track v ps with
+                                                         | Some (_, z2) => Z.odd z2
+                                                         | None => false
+                                                         end
+                                    end) gs
+      | _ => false
+      end
+  end.
+Definition seg_spec_fail (s : stream) (o : obs) : bool :=
+  match s, o with
+  | MkStream tracks pd _ mp evs, MkObs outs gs rep =>
+      segs_fail tracks pd mp 0 gs (expected_written tracks evs outs [])
+      || negb (Nat.eqb (length rep) (length gs))
+      || sync_fail false s gs
+  end.
+(* the recorder run: outcomes are not observable; the files must start on a sync sample, be numbered consecutively,
+   and the samples of every track must appear in the order and with the sizes they were written in *)
+Fixpoint nums_fail (num : Z) (gs : list oseg) : bool :=
+  match gs with
+  | [] => false
+  | OSeg n _ _ _ ps :: r => negb (n =? num) || match ps with [] => true | _ => false end || nums_fail (num + 1) r
+  end.
+Definition rec_spec_fail (s : stream) (o : obs) : bool :=
+  match o with MkObs _ gs rep => nums_fail 0 gs || negb (Nat.eqb (length rep) (length gs)) || sync_fail true s gs end.
+
+(* ---- strace: the system calls on a segment file against the write log ---- *)
+Definition zeros (n : Z) : bytes := repeat 0 (Z.to_nat n).
+(* the appending writes of write_log as (offset, length) *)
+Fixpoint wlog_shape (off : Z) (l : list wop) : list (Z * Z) :=
+  match l with
+  | [] => []
+  | WWrite b :: r => (off, len b) :: wlog_shape (off + len b) r
+  | WRewrite o b :: r => (o, len b) :: wlog_shape off r
+  end.
+Definition file_wlog (f : ofile) : list wop :=
+  match f with
+  | OFile _ fl ml vl parts _ =>
+      write_log (zeros (fl - 8)) (zeros (ml - 8)) (map mk_part parts) (fl + 8) (zeros vl)
+  end.
+Definition writes_of (ops : list (Z * Z * Z)) : list (Z * Z) :=
+  flat_map (fun o => match o with (k, a, b) => if k =? 1 then [(a, b)] else [] end) ops.
+(* consecutive writes that continue each other are one region *)
+Fixpoint merge_writes (l : list (Z * Z)) : list (Z * Z) :=
+  match l with
+  | (a, n) :: r =>
+      match merge_writes r with
+      | (b, m) :: r' => if (a + n =? b) && (0 <? m) then (a, n + m) :: r' else (a, n) :: (b, m) :: r'
+      | [] => [(a, n)]
+      end
+  | [] => []
+  end.
+Definition pair_eqb (a b : Z * Z) : bool := (fst a =? fst b) && (snd a =? snd b).
+(* observed: open, one write per appending entry of the log at the log's offsets, then the rewrite (possibly in
+   several write calls that continue each other), close last *)
+Definition file_mismatch (f : ofile) : bool :=
+  match f with
+  | OFile _ _ _ _ parts ops =>
+      let sh := wlog_shape 0 (file_wlog f) in
+      let n := S (length parts) in
+      let ws := writes_of ops in
+      negb (list_eqb pair_eqb (firstn n ws) (firstn n sh)
+            && list_eqb pair_eqb (merge_writes (skipn n ws)) (skipn n sh)
+            && match ops with (0, _, _) :: _ => true | _ => false end
+            && match rev ops with (3, _, _) :: _ => true | _ => false end)
+  end.
+(* the property's write model on the observed calls alone: the header and every part are ONE write each at the
+   current end of the file (append only); whatever is written afterwards stays inside the moov box; nothing follows
+   the close *)
+Fixpoint appends_fail (endpos : Z) (lens : list Z) (ws : list (Z * Z)) : bool * list (Z * Z) :=
+  match lens with
+  | [] => (false, ws)
+  | n :: r =>
+      match ws with
+      | (a, m) :: ws' => if (a =? endpos) && (m =? n) then appends_fail (endpos + n) r ws' else (true, ws')
+      | [] => (true, [])
+      end
+  end.
+Definition file_spec_fail (f : ofile) : bool :=
+  match f with
+  | OFile _ fl ml _ parts ops =>
+      let '(bad, rest) := appends_fail 0 ((fl + ml) :: map (fun md => fst md + snd md) parts) (writes_of ops) in
+      bad || existsb (fun w => (fst w <? fl + 8) || (fl + ml <? fst w + snd w)) rest
+      || match rest with [] => true | _ => false end
+      || negb (Nat.eqb (length (filter (fun o => match o with (k, _, _) => k =? 3 end) ops)) 1)
+      || match rev ops with (3, _, _) :: _ => false | _ => true end
+  end.
+(* files and parts per file that the segmenter model predicts *)
+Definition strace_mismatch (s : stream) (files : list ofile) : bool :=
+  let c := cfg_of s in
+  let x := run_raw c (evs_of s) in
+  negb (list_eqb (fun (f : segfile) (o : ofile) =>
+                    match o with OFile n _ _ _ parts _ => (f.(f_num) =? n) && Nat.eqb (length f.(f_parts)) (length parts) end)
+                 (files_of x.(x_log)) files)
+  || existsb file_mismatch files.
+
 Definition mismatch (c : case) : bool :=
   match c with
   | CCrash init_len parts durs j z o =>
@@ -57,6 +329,9 @@ Definition mismatch (c : case) : bool :=
   | CConcat sid_eq n1 n2 real =>
       negb (Bool.eqb (can_concat false (Some (0, n1)) (Some ((if sid_eq then 0 else 1), n2))) real)
   | CMuxCrash _ _ _ _ _ | CSync _ _ => false
+  | CSeg s o => negb (obs_eqb true (model_obs false s) o)
+  | CRec s o => negb (obs_eqb false (model_obs true s) o)
+  | CStrace s files => strace_mismatch s files
   end.
 
 (* ---- the property on the observed outputs only ---- *)
@@ -84,4 +359,7 @@ Definition spec_fail (c : case) : bool :=
       negb ((0 <=? reported) && (header =? reported / 1000000 * 1000000))
   | CSync has_video first_sync => has_video && negb first_sync
   | CConcat _ _ _ real => negb real
+  | CSeg s o => seg_spec_fail s o
+  | CRec s o => rec_spec_fail s o
+  | CStrace _ files => existsb file_spec_fail files
   end.
